@@ -140,6 +140,9 @@ def ev_play(tid, ob: Obj, seat: int, c: int, via: str = 'by_player',
     try:
         if via == 'raw':
             target.play_card(card(c))
+        elif via == 'int':
+            # the bare index (an agent's action id) instead of the Card object
+            target.play_card_by_player(int(card(c)), Player(seat + 1))
         else:
             target.play_card_by_player(card(c), Player(seat + 1))
         res = 'ok'
@@ -262,6 +265,7 @@ def board_trace(job) -> List[Dict[str, Any]]:
     hands = [set(h) for h in deal]
     used: List[int] = []
     trick: List[int] = []
+    trick_seats: List[int] = []          # who played the cards of the open trick
     dummy = (decl + 2) % 4
     n_total = sum(len(h) for h in deal)
     k = 0
@@ -327,6 +331,19 @@ def board_trace(job) -> List[Dict[str, Any]]:
                 evs.append(ev_play(tid, man, active, r.choice(used)))
             if r.random() < 0.4:               # plain object: out of turn
                 evs.append(ev_play(tid, plain, s2, r.choice(legal)))
+            if r.random() < 0.2:
+                # the index of a held, playable card instead of the card itself
+                evs.append(ev_play(tid, man, active, r.choice(legal), via='int'))
+                if obs:
+                    o_ = obs[active]
+                    evs.append(ev_play(tid, o_, active, r.choice(legal), via='int'))
+            if trick and r.random() < 0.5:
+                # an echo: a card of the open trick offered again by the seat that played it
+                j_ = r.randrange(len(trick))
+                evs.append(ev_play(tid, man, trick_seats[j_], trick[j_]))
+                for o in obs:
+                    if o.me == trick_seats[j_] or (trick_seats[j_] == dummy and o.me != dummy and used):
+                        evs.append(ev_play(tid, o, trick_seats[j_], trick[j_]))
             if obs:
                 o = obs[r.randrange(4)]
                 # the observer itself out of turn / with a card it lacks
@@ -367,8 +384,10 @@ def board_trace(job) -> List[Dict[str, Any]]:
         hands[active].discard(c)
         used.append(c)
         trick.append(c)
+        trick_seats.append(active)
         if len(trick) == 4:
             trick = []
+            trick_seats = []
         if k == 0:
             for o in obs:
                 # the observer in dummy's seat is shown "dummy's cards" too in every
